@@ -1,8 +1,198 @@
 """
-Replay of real traces through the executable Lean model (correspondence of the dynamic model) and
-evaluation of the Lean trace monitors on them.  (Filled in together with lean/AJ/Model/Run.lean.)
+Replay of real traces through the executable Lean model: translation of a trace of dyn_rt.run into
+model events (+ the reactions observed on the implementation), one request line per trace.
+
+Layer A (AJ/Model/Run.lean): starting of jobs, window slots, nesting.
+Layer B (AJ/Model/Full.lean): exits, cancellation, verdicts, shutdown.
 """
+from dyn_gen import index
+
+BEHAV_A = ["env:A1", "env:guard", "impl:start"]
+
+
+def assign_ids(sc):
+    """top = 0, a parent before its children, a requirement before its dependants (the model's WF)"""
+    ids = {}
+    order = []
+
+    def visit(node):
+        ids[node["name"]] = len(order)
+        order.append(node)
+        kids = list(node.get("children", []))
+        names = {k["name"] for k in kids}
+        placed = []
+        remaining = kids[:]
+        while remaining:
+            progressed = False
+            for k in remaining:
+                if all((r not in names) or (r in placed) for r in k.get("req", [])):
+                    placed.append(k["name"])
+                    remaining.remove(k)
+                    visit(k)
+                    progressed = True
+                    break
+            if not progressed:          # cyclic (malformed stream): any order
+                k = remaining.pop(0)
+                placed.append(k["name"])
+                visit(k)
+    visit(sc["tree"])
+    return ids, order
+
+
+def enc(l):
+    return ",".join(str(x) for x in sorted(l)) if l else "-"
+
+
+def cfg_tokens(sc, ids, order):
+    info = index(sc)
+    n = len(order)
+    P = [0] * n
+    S, C, F, W, T, X, R = [], [], [], [], [], [], []
+    for node in order:
+        j = ids[node["name"]]
+        par = info[node["name"]]["parent"]
+        P[j] = ids[par] if par is not None else 0
+        if node["kind"] == "sched":
+            S.append(j)
+            if node.get("w"):
+                W.append("%d:%d" % (j, node["w"]))
+            if node.get("T") is not None:
+                T.append("%d:%d" % (j, node["T"]))
+            if node.get("sdT") is not None:
+                X.append("%d:%d" % (j, node["sdT"]))
+        if node["crit"]:
+            C.append(j)
+        if node["forever"]:
+            F.append(j)
+        if node.get("req"):
+            R.append("%d:%s" % (j, ",".join(str(ids[r]) for r in node["req"])))
+    return "n=%d P=%s S=%s R=%s C=%s F=%s W=%s T=%s X=%s pure=%d" % (
+        n, ",".join(map(str, P)), enc(S), "|".join(R) or "-", enc(C), enc(F),
+        ",".join(W) or "-", ",".join(T) or "-", ",".join(X) or "-", 1 if sc["tree"].get("pure") else 0)
+
+
+def res_token(ids, line):
+    kind = line[2]
+    if kind == "rcancel":
+        return "c"
+    if kind == "rret":
+        return "t" if line[4] is True else "f"
+    x = line[4]
+    if x.startswith("job:"):
+        return "xj%d" % ids[x[4:]]
+    if x.startswith("timeout:"):
+        return "xt%d" % ids.get(x[8:], 9999)
+    return "x?"
+
+
+def translate_A(sc, trace):
+    """list of event strings for replayA"""
+    ids, order = assign_ids(sc)
+    info = index(sc)
+    log = [e for e in trace if e[2] != "snap"]
+    evs = []
+    now = 0
+    ended = set()          # jobs whose end the model has been told about
+
+    def tick(t):
+        nonlocal now
+        if t > now:
+            evs.append("T_%d" % (t - now))
+            now = t
+
+    def following(i, s, kinds_stop):
+        """lines after position i up to the next suspension / end of scheduler s"""
+        out = []
+        for e in log[i + 1:]:
+            if e[2] in ("wenter", "rret", "rraise", "rcancel") and e[3] == s:
+                out.append(e)
+                break
+            out.append(e)
+        return out
+
+    i = 0
+    n = len(log)
+    while i < n:
+        e = log[i]
+        t, kind, who = e[0], e[2], e[3]
+        if kind == "topend":
+            break
+        if kind == "rbegin" and info[who]["parent"] is None:
+            tick(t)
+            fol = following(i, who, None)
+            started = [ids[x[3]] for x in fol if x[2] == "create" and info[x[3]]["parent"] == who]
+            evs.append("B_%s" % enc(started))
+        elif kind == "take":
+            j = e[4]
+            tick(t)
+            if info[j]["kind"] == "sched":
+                fol = following(i, j, None)
+                started = [ids[x[3]] for x in fol if x[2] == "create" and info[x[3]]["parent"] == j]
+            else:
+                started = []
+            evs.append("G_%d_%s" % (ids[j], enc(started)))
+        elif kind in ("end", "raise"):
+            tick(t)
+            ended.add(who)
+            evs.append("E_%d_%d" % (ids[who], 1 if kind == "end" else 0))
+        elif kind == "cdone":
+            tick(t)
+            ended.add(who)
+            evs.append("A_%d" % ids[who])
+        elif kind in ("rret", "rraise", "rcancel"):
+            tick(t)
+            ended.add(who)
+            if info[who]["children"]:      # an empty scheduler is over as soon as it begins (same model step)
+                evs.append("F_%d_%s" % (ids[who], res_token(ids, e)))
+        elif kind == "wret" and e[4] in ("main", "tidy"):
+            s = who
+            tick(t)
+            D = e[5]
+            # tasks that finished without any job-level line: cancelled while queued / before their first step
+            for j in D:
+                if j not in ended and j in info:
+                    ended.add(j)
+                    evs.append("A_%d" % ids[j])
+            if e[4] == "main":
+                fol = following(i, s, None)
+                K = [ids[x[3]] for x in fol if x[2] == "cancel" and info.get(x[3], {}).get("parent") == s]
+                started = [ids[x[3]] for x in fol if x[2] == "create" and info[x[3]]["parent"] == s]
+                last = fol[-1] if fol else None
+                leave = not (last is not None and last[2] == "wenter" and last[3] == s and last[4] == "main")
+                if D:
+                    evs.append("W_%d_%d_%s_%s_%s" % (ids[s], 1 if leave else 0, enc(K), enc(ids[x] for x in D), enc(started)))
+                else:
+                    evs.append("L_%d_%s" % (ids[s], enc(K)))
+        elif kind == "wcancel" and e[4] == "main":
+            s = who
+            tick(t)
+            fol = following(i, s, None)
+            K = [ids[x[3]] for x in fol if x[2] == "cancel" and info.get(x[3], {}).get("parent") == s]
+            evs.append("L_%d_%s" % (ids[s], enc(K)))
+        i += 1
+    return ids, order, evs
 
 
 def replay_all(pid, traces, res, drv):
-    return
+    """traces: list of (scenario, result, trace). Adds correspondence mismatches to `res`."""
+    lines, cases = [], []
+    for sc, r, trace in traces:
+        try:
+            ids, order, evs = translate_A(sc, trace)
+        except Exception as ex:          # noqa
+            import traceback
+            res.mismatches.append(("harness:translate", {"scenario": sc}, "-", traceback.format_exc()[-400:]))
+            continue
+        lines.append("replayA %s ev=%s" % (cfg_tokens(sc, ids, order), ";".join(evs)))
+        cases.append((sc, len(evs)))
+    outs = drv.ask(lines)
+    nev = 0
+    for (sc, n), out, line in zip(cases, outs, lines):
+        res.count("replayA")
+        nev += n
+        if out.startswith("ok"):
+            continue
+        parts = out.split(" ", 3)
+        comp = parts[2] if len(parts) > 2 else "bad"
+        res.mismatches.append((comp, {"kind": "scenario", "scenario": sc, "request": line[:3000]}, "accepted", out))
+    res.dist["events_replayed_layerA"] = {"total": nev}
